@@ -448,8 +448,14 @@ async fn run_many(addr: SocketAddr, certs: &Certs, n: usize) -> anyhow::Result<S
     tokio::time::sleep(Duration::from_millis(1200)).await;
     let mut last = vec![];
     for i in 0..3 {
-        let want = format!("after{i}");
-        last.push(match tokio::time::timeout(Duration::from_secs(8), rq.request(want.clone())).await { Err(_) => "hang".to_string(), Ok(res) => outcome(&res, &want) });
+        // (the replier may still be working through the backlog: a call that times out is made again)
+        let mut o = "timeout".to_string();
+        for attempt in 0..8 {
+            let want = format!("after{i}.{attempt}");
+            o = match tokio::time::timeout(Duration::from_secs(8), rq.request(want.clone())).await { Err(_) => "hang".to_string(), Ok(res) => outcome(&res, &want) };
+            if o != "timeout" { break; }
+        }
+        last.push(o);
     }
     rep.abort();
     Ok(format!("{first} | {one_more} | {}", last.join(",")))
